@@ -37,6 +37,14 @@ def element_forms():
     return out
 
 
+def size_ladder():
+    """the same repeat units at sizes around typical shortcut thresholds"""
+    units = [("C", "[C@H](C)C", ""), ("O", "[SiH2]O", ""), ("", "N[C@@H](C)C(=O)", "O"), ("", "[NH3+]CC(=O)[O-].", "O"),
+             ("", "c1cc[nH]c1.", "C"), ("", "C", ""), ("O", "CCO", ""), ("[2H]", "C([2H])", "[2H]"), ("", "[Na+].[Cl-].", "O")]
+    ns = [1, 2, 3, 5, 8, 13, 21, 34, 55, 63, 64, 65, 89, 127, 128, 129, 144, 200, 255, 256, 257, 300, 400]
+    return [a + u * n + z for a, u, z in units for n in ns]
+
+
 def decomp_case(smiles):
     """worker: compare RSMIDecomposer.decompose with the reference composition"""
     from synrbl.SynProcessor import RSMIDecomposer
@@ -184,6 +192,7 @@ def spaces(tier):
     else:
         mols += universe.U(["C", "N", "O"], 4)
     mols += MIX_ALPHABET
+    mols += size_ladder()
     seen, out = set(), []
     for s in mols:
         if s not in seen:
@@ -237,7 +246,7 @@ def run(tier, seed):
         "evaluations": len(r1) + len(r2) + len(r3) + n_pairs,
         "distinct_nontrivial": n_valid + len(mixes) + len(pairs) + n_pairs,
         "rule": "distinct SMILES that RDKit parses (corpus molecules, every element Z=1..118 "
-                "in 13 forms, generated universes) compared with the independent composition; "
+                "in 13 forms, generated universes, a size ladder of 9 repeat units x 23 lengths up to 400) compared with the independent composition; "
                 "all ordered tuples of a {}-molecule alphabet up to length {} for additivity; "
                 "all ordered pairs of sides for the carbon label; all {}x{} pairs of "
                 "composition dicts over C,H,O in 0..2 and Q in -2..2 for the comparator. "
